@@ -35,6 +35,10 @@ def _corpus():
         b'require "regex"; if header :regex "a" "b" { stop; }', b'if header :regex "a" "b" { stop; }',
         b'require "vacation"; vacation :seconds 1 "a";', b"", b"# only a comment\n", b'if header "a" [',
         b'require "body"; if body :content "text" "a" { discard; }', b'"a"', b"if not",
+        b'require "comparator-i;ascii-numeric"; if header :comparator "i;ascii-numeric" "a" "1" { keep; }',
+        b'if header :comparator "i;ascii-numeric" "a" "1" { keep; }', b'require ["x-unknown", "fileinto"]; fileinto "a";',
+        b'require "envelope"; if envelope :all :is "from" "a" { stop; }', b"if true keep;", b'require ["a" "b"];',
+        b"if anyof(true false) { keep; }",
     ]
     seen, uniq = set(), []
     for s in out:
@@ -54,6 +58,20 @@ def reconfigure():
     global SLO, SHI
     SLO = int(os.environ.get("C13_LO", "0"))
     SHI = int(os.environ.get("C13_HI", str(NS)))
+
+
+def definitions_snapshot():
+    """everything the commands module shares between all parses: argument tables and class attributes"""
+    snap = {}
+    for n, v in sorted(vars(SC).items()):
+        if isinstance(v, dict) and n in ("comparator", "address_part", "match_type"):
+            snap[n] = repr(v)
+        if isinstance(v, type) and n.endswith("Command"):
+            for a in ("args_definition", "extension", "accept_children", "must_follow", "variable_args_nb",
+                      "non_deterministic_args", "_type"):
+                if a in vars(v):
+                    snap[n + "." + a] = repr(vars(v)[a])
+    return snap
 
 
 def outcome(p, script):
@@ -143,8 +161,14 @@ def _havoc_body(info, s, brackets, expected, comments, strlist, junk, pos, exts)
     es = P.LazyExtSet().setup(dict(zip(P.ALL_EXT, exts)))
     SC.RequireCommand.loaded_extensions = es
     # ---- the call under test
+    before = notrace(definitions_snapshot)
     got = outcome(p, script)
+    after = notrace(definitions_snapshot)
     want = EXPECTED[si]
+    if before != after:
+        changed = sorted(k for k in before if before[k] != after.get(k))
+        raise Violation("C13/parse-mutates-shared-definitions/%s" % (changed[0] if changed else "?"),
+                        {"script": notrace(_txt, script), "changed": changed})
     info["concrete"] = dict(s=si, brackets=[("x", b"y")], expected=("semicolon",), comments=[b"# z"],
                             strlist=["q"], junk=j, pos=3, e0=True, e1=False, e2=True, e3=False, e4=True,
                             e5=False, e6=True, e7=False, e8=True, e9=False, e10=True, e11=False, e12=True)
@@ -249,3 +273,54 @@ def fhavoc(c: int, a: int, e0: bool, e1: bool, e2: bool, e3: bool, e4: bool, e5:
     post: _
     """
     return run("fhavoc", _fhavoc_body, dict(c=c, a=a, exts=[e0, e1, e2, e3, e4, e5, e6, e7, e8, e9, e10, e11, e12]))
+
+
+
+# ------------------------------------------------------------------ loading a parsed script into a set
+LOADABLE = [i for i, e in enumerate(EXPECTED) if e[0] is True]
+NLOAD = len(LOADABLE)
+
+
+def _load_outcome(si, between):
+    SC.RequireCommand.loaded_extensions = []
+    p = Parser()
+    p.parse(CORPUS[si])
+    SC.RequireCommand.loaded_extensions = between      # what other parsers did in the meantime
+    fs = FiltersSet("t")
+    try:
+        fs.from_parser_result(p)
+        return ("ok", tuple(fs.requires), str(fs), tuple((f["name"], f["enabled"]) for f in fs.filters))
+    except Exception as e:
+        return ("raises", type(e).__name__, str(e))
+
+
+def _fload_body(info, s, exts):
+    si = LOADABLE[P.decode(s, NLOAD)]
+    want = notrace(_load_outcome, si, [])
+    es = ExtSet().setup(dict(zip(P.ALL_EXT, exts)))
+    es.resume = True
+    if is_tracing():
+        with NoTracing():
+            got = _load_outcome(si, es)
+    else:
+        got = _load_outcome(si, es)
+    conc = {"s": LOADABLE.index(si)}
+    ans = dict(es.asked)
+    for i, e in enumerate(P.ALL_EXT):
+        conc["e%d" % i] = bool(ans.get(e, False))
+    info["concrete"] = conc
+    info["steps"] = 1 + len(es.asked)
+    info["show"] = {"script": notrace(_txt, CORPUS[si])}
+    info["cls"] = "load%d" % si
+    if got != want:
+        raise Violation("C13/from_parser_result-depends-on-later-parses/%s" % ("requires" if got[:2] != want[:2] else "text"),
+                        {"script": notrace(_txt, CORPUS[si]), "pristine": repr(want)[:500], "got": repr(got)[:500]})
+
+
+def fload(s: int, e0: bool, e1: bool, e2: bool, e3: bool, e4: bool, e5: bool, e6: bool, e7: bool, e8: bool, e9: bool,
+          e10: bool, e11: bool, e12: bool) -> bool:
+    """
+    pre: 0 <= s < NLOAD
+    post: _
+    """
+    return run("fload", _fload_body, dict(s=s, exts=[e0, e1, e2, e3, e4, e5, e6, e7, e8, e9, e10, e11, e12]))
